@@ -542,6 +542,87 @@ fn f(m: felt252, x: u8) -> felt252 {
 }"),
 ];
 
+
+/// W5: `downcast` into `BoundedInt<L, U>` from felt252 and from the integer types, for ranges that
+/// sit at, next to and across the range-check bound, with inputs at every boundary of the range
+/// (and the same boundaries shifted by 2**128). Returns (name, code, inputs).
+pub fn range_cast_programs() -> Vec<(String, String, Vec<BigInt>)> {
+    let b = |k: u32| BigInt::one() << k;
+    let p = felt_prime();
+    let mut out = vec![];
+    let felt_ranges: Vec<(BigInt, BigInt)> = vec![
+        (BigInt::zero(), BigInt::from(255)),
+        (BigInt::one(), BigInt::from(255)),
+        (BigInt::from(-128), BigInt::from(127)),
+        (BigInt::from(-5), BigInt::from(5)),
+        (BigInt::from(-100), BigInt::from(-1)),
+        (b(64), b(64) + 10),
+        (BigInt::one(), b(122)),
+        (-b(100), b(100)),
+        (b(128) - 16, b(128) - 1),
+        (b(128) - b(100), b(128) - 1),
+        (b(128) - 16, b(128) + 16),
+        (b(128), b(128) + 100),
+        (b(128) - 1, b(128)),
+        (b(200), b(200) + b(64)),
+        (BigInt::zero(), b(123)),
+    ];
+    let int_ranges: Vec<(&str, BigInt, BigInt, BigInt, BigInt)> = vec![
+        ("u8", BigInt::zero(), BigInt::from(255), BigInt::from(3), BigInt::from(200)),
+        ("u8", BigInt::zero(), BigInt::from(255), BigInt::from(0), BigInt::from(254)),
+        ("u64", BigInt::zero(), b(64) - 1, BigInt::one(), b(64) - 2),
+        ("u128", BigInt::zero(), b(128) - 1, BigInt::from(5), b(128) - 1),
+        ("u128", BigInt::zero(), b(128) - 1, b(127), b(128) - 2),
+        ("u128", BigInt::zero(), b(128) - 1, BigInt::zero(), b(127)),
+        ("i8", BigInt::from(-128), BigInt::from(127), BigInt::from(-5), BigInt::from(5)),
+        ("i8", BigInt::from(-128), BigInt::from(127), BigInt::from(-128), BigInt::from(0)),
+        ("i128", -b(127), b(127) - 1, BigInt::from(-1), b(127) - 1),
+        ("i128", -b(127), b(127) - 1, -b(127) + 1, b(127) - 2),
+        ("i64", -b(63), b(63) - 1, BigInt::from(1), b(62)),
+    ];
+    let lit = |v: &BigInt| if v.sign() == num_bigint::Sign::Minus { format!("-0x{:x}", -v) } else { format!("0x{v:x}") };
+    let prog = |from: &str, l: &BigInt, u: &BigInt| {
+        let (ret, conv) = if l.sign() != num_bigint::Sign::Minus {
+            ("Option<felt252>", "Some(v) => Some(upcast(v))")
+        } else if *l >= -b(127) && *u < b(127) {
+            ("Option<i128>", "Some(v) => Some(upcast(v))")
+        } else {
+            ("Option<bool>", "Some(_v) => Some(true)")
+        };
+        format!(
+            "extern type BoundedInt<const MIN: felt252, const MAX: felt252>;\nextern fn downcast<T, S>(index: T) -> Option<S> implicits(RangeCheck) nopanic;\nextern fn upcast<T, S>(index: T) -> S nopanic;\ntype Target = BoundedInt<{}, {}>;\nfn f(x: {from}) -> {ret} {{\n    match downcast::<{from}, Target>(x) {{\n        {conv},\n        None => None,\n    }}\n}}\n",
+            lit(l), lit(u)
+        )
+    };
+    let boundary_inputs = |l: &BigInt, u: &BigInt, lo: &BigInt, hi: &BigInt| {
+        let mut v: Vec<BigInt> = vec![];
+        for base in [l.clone(), u.clone(), BigInt::zero(), b(128), lo.clone(), hi.clone()] {
+            for d in [-1i32, 0, 1] {
+                v.push(&base + d);
+            }
+        }
+        for base in [l.clone(), u.clone()] {
+            for shift in [b(128), -b(128), b(64)] {
+                for d in [-1i32, 0, 1] {
+                    v.push(&base + &shift + d);
+                }
+            }
+        }
+        v.push((l + u) / 2);
+        let mut seen = std::collections::BTreeSet::new();
+        v.into_iter().filter(|x| x >= lo && x <= hi).filter(|x| seen.insert(x.clone())).collect::<Vec<_>>()
+    };
+    for (l, u) in &felt_ranges {
+        // As felts: every boundary is taken modulo the prime.
+        let ins: Vec<BigInt> = boundary_inputs(l, u, &(-b(130)), &(b(251))).into_iter().map(|x| ((x % &p) + &p) % &p).collect();
+        out.push((format!("rangecast::felt252::{}..{}", lit(l), lit(u)), prog("felt252", l, u), ins));
+    }
+    for (from, lo, hi, l, u) in &int_ranges {
+        out.push((format!("rangecast::{from}::{}..{}", lit(l), lit(u)), prog(from, l, u), boundary_inputs(l, u, lo, hi)));
+    }
+    out
+}
+
 pub fn c03_worker(ctx: &mut Ctx) {
     install_panic_hook();
     let seed = ctx.seed;
@@ -555,6 +636,13 @@ pub fn c03_worker(ctx: &mut Ctx) {
         .collect();
     sources.extend(snippet_cases());
     sources.extend(HINT_COVERAGE_PROGRAMS.iter().map(|(n, c)| (n.to_string(), c.to_string())));
+    let explicit: HashMap<String, Vec<BigInt>> = range_cast_programs()
+        .into_iter()
+        .map(|(n, c, ins)| {
+            sources.push((n.clone(), c));
+            (n, ins)
+        })
+        .collect();
     ctx.count("programs", sources.len() as u64);
     let results: Vec<ShardResult> = sources
         .par_iter()
@@ -575,6 +663,17 @@ pub fn c03_worker(ctx: &mut Ctx) {
                 for func in funcs {
                     let mut rng = Rng::derive(seed, &[33, fnv_str(name), fnv_str(&func.id.to_string())]);
                     let mut seen_sites = HashMap::new();
+                    if let Some(inputs) = explicit.get(name) {
+                        // Boundary inputs; every input gets its own fault budget per site.
+                        for x in inputs {
+                            let args = vec![Arg::Value(Felt252::from(x))];
+                            let case_id = format!("{name} {}({x})", func.id);
+                            let replay = json!({"name": name, "code": code, "function": func.id.to_string(), "seed": seed, "explicit_input": x.to_string()});
+                            local.count("boundary_inputs", 1);
+                            fault_runs(&mut local, &prog, &func, &args, &case_id, &replay, seed, thorough, &mut HashMap::new());
+                        }
+                        continue;
+                    }
                     for k in 0..inputs_per_fn {
                         let Some((args, adesc)) = values::gen_args(&prog.builder, &func, &mut rng) else {
                             local.count("functions_with_unsupported_params", 1);
@@ -618,6 +717,11 @@ pub fn c03_replay(case: &serde_json::Value) -> Result<Option<String>, String> {
     let mut acc = ShardResult::default();
     let mut rng = Rng::derive(seed, &[33, fnv_str(name), fnv_str(fname)]);
     let mut seen = HashMap::new();
+    if let Some(x) = case["explicit_input"].as_str() {
+        let x: BigInt = x.parse().map_err(|_| "bad explicit_input")?;
+        fault_runs(&mut acc, &prog, &func, &[Arg::Value(Felt252::from(&x))], &format!("{name} {fname}({x})"), case, seed, true, &mut seen);
+        return Ok(acc.violations.first().map(|v| format!("{}: {}", v.sig, v.desc)));
+    }
     for k in 0..case["inputs_per_fn"].as_u64().unwrap_or(3) {
         let Some((args, adesc)) = values::gen_args(&prog.builder, &func, &mut rng) else { break };
         fault_runs(&mut acc, &prog, &func, &args, &format!("{name} {fname}({adesc})"), case, seed, true, &mut seen);
